@@ -65,10 +65,13 @@ def othersKept (i : Nat) (pre post : Option TRO) : Bool :=
 
 def finStepOf (ro : RolloutSM.Rollout) : Option RolloutSM.FinStep := ro.sub.map (·.finStep)
 
+/-- the workload as the finder reports it -/
+def wlSeen (w : RolloutSM.World) : Option RolloutSM.WL := (landWl w).wl
+
 /-- the rollout's own clean-up did something in this reconcile: workload, BatchRelease, clean-up cursor, or the
     verdict (Completed / Terminating-Completed / Disabled) -/
 def cleanupMoved (e e' : Entry) : Bool :=
-  e'.w.wl != e.w.wl || e'.w.br != e.w.br || finStepOf e'.w.ro != finStepOf e.w.ro ||
+  wlSeen e'.w != wlSeen e.w || e'.w.br != e.w.br || finStepOf e'.w.ro != finStepOf e.w.ro ||
   e'.w.ro.reason != e.w.ro.reason || e'.w.ro.term != e.w.ro.term || e'.w.ro.phase != e.w.ro.phase
 
 /-- **C05.bind_finalise_finalizer_off** — a bound rollout's own clean-up moves only when its finalizer is off the
@@ -93,13 +96,13 @@ def guardCompletedBeforeRestored (pos : Pos) (e e' : Entry) (post : Option TRO) 
 
 /-- **C18.bind_tr_finalizer_guard** — the TrafficRouting controller removes its own finalizer only from an object in
     deletion and only when no canary route is left (whatever progressing finalizers remain: the object then stays
-    visible until the last holder lets go) -/
+    visible until the last holder lets go).  A TrafficRouting without `objectRef` manages no route. -/
 def trFinalizerGuard (pre post : JS) : Bool :=
   match pre.tr with
   | none => true
   | some t =>
     let off := match post.tr with | none => true | some t' => !t'.hasFinalizer
-    if t.hasFinalizer && off then t.deleting && post.net.canaryIng.isNone else true
+    if t.hasFinalizer && off then t.deleting && (post.net.canaryIng.isNone || !t.hasRef) else true
 
 /-- **C18.bind_held_stays_visible** — the object disappears only in deletion and only with its last finalizer -/
 def staysVisible (l : Label) (pre post : Option TRO) : Bool :=
